@@ -358,7 +358,7 @@ func solveOne(vc *VC, o *Obligation, idx int, opts SolveOpts) *Result {
 	if !o.Cover && o.NFact > 40 {
 		sfile := filepath.Join(opts.Dir, fmt.Sprintf("o%05d.sliced.smt2", idx))
 		if err := os.WriteFile(sfile, []byte(vc.ScriptOpt(o, false, true)), 0o644); err == nil {
-			raw, out, dt := runSolver(Solvers[0], opts.Timeout1, sfile)
+			raw, out, dt := runSolver(Solvers[0], opts.Timeout1*2, sfile)
 			if raw == "unsat" {
 				r.Raw, r.Solver, r.Output, r.TimeS, r.Status = raw, Solvers[0].Name+"(sliced)", out, dt, "discharged"
 				r.PerSolver[Solvers[0].Name] = raw
